@@ -80,7 +80,12 @@ func (k Keeper) ChangeExecutor(ctx context.Context, plan types.ExecutorChangePla
 		return err
 	}
 	params.BridgeExecutors = plan.NextExecutors
-	if err := k.SetParams(ctx, params); err != nil {
+	if err := params.Validate(k.authKeeper.AddressCodec()); err != nil {
+		return err
+	}
+	// do not use SetParams: validators zeroed above are removed in this block
+	// and must not count against max validators.
+	if err := k.Params.Set(ctx, params); err != nil {
 		return err
 	}
 	return nil
